@@ -82,6 +82,25 @@ ROUND5 = {
 for _p, _t in ROUND5.items():
     CLAIMS[_p]["text"] += _t
 
+# round-6 additions
+ROUND6 = {
+    "C02": " Also nested 257-bit nodes where the first twelve keys share one value.",
+    "C04": " Also the empty start / end string with both inclusivities.",
+    "C05": " A trie loaded from a region that continues after the stream answers the same and re-marshals to the stream alone.",
+    "C06": " Also keys-only 0.5.10/0.5.11 streams that store prefixes.",
+    "C08": " Also prefix keys of 9..63 bytes followed by a separator byte below 0x10.",
+    "C11": " Also queries that extend an indexed key by a 40-byte tail under the monitor.",
+    "C12": " Also prefix keys of 9..63 bytes followed by a separator byte below 0x10.",
+    "C13": " Also while an unrelated trie that stores prefixes is built after the four levels.",
+    "C15": " A result of Encode stays intact while the encoder is used again.",
+    "C16": " Also when big-endian encoders for the element types are requested between building and NewEmpty.",
+    "C17": " The size after loading from a longer region and re-marshalling equals the size of the index.",
+    "C18": " On concrete key sets the level table equals the one recomputed through the query path's node decoder.",
+    "C20": " Values shorter than the encoder's nominal size carved out of one caller-owned buffer: the buffer is not written.",
+}
+for _p, _t in ROUND6.items():
+    CLAIMS[_p]["text"] += _t
+
 def main():
     checks = []
     for pid in ALL:
@@ -114,7 +133,7 @@ def main():
         "engines": [{"name": "symgo", "path": "/verif/engine", "serves_properties": sorted(CLAIMS.keys()),
                      "kind_free_text": "path-forking symbolic executor for Go SSA (golang.org/x/tools v0.29.0) with an SMT-LIB2 back end (z3 5.1.0 over a pipe, push/pop); harnesses are in-package Go files under /verif/harness injected by overlay"}],
         "checks": checks,
-        "notes": "All checks are bounded (see evidence bounds per harness); genuine defects found are repaired in /repo by 'fix:' commits and listed as fixed in /verif/known_findings.json.",
+        "notes": "All checks are bounded (see evidence bounds per harness); genuine defects found are repaired in /repo by 'fix:' commits and listed as fixed in /verif/known_findings.json. Tiers: the thorough command runs the quick grids plus deeper grids for the properties whose deeper grids ran to completion, clean, on the unchanged tree (C07, C08, C13, C15, C16, C17, C19, C20); for the other properties the deeper grids did not finish inside the cap or could not be run in the time available and are kept unregistered (tier deep in engine/specs.go), so their thorough command runs the quick grids: a bound is registered only after it has run clean (DESIGN.md 13.1).",
         "not_applicable": na,
     }
     json.dump(m, open("/verif/MANIFEST.json", "w"), indent=1)
